@@ -8,7 +8,7 @@ use crate::{for_both, hx, Ctx, Tier};
 use blsful::*;
 use serde_json::json;
 
-pub const RULE: &str = "grid: edge scalars E (1,2,3,r-1,r-2,2^254,2^255-19 mod r,(r-1)/2,hash-derived,random, plus 9 keys whose compressed public key ends with NUL/LF/CR/space/quote/backslash/DEL/0x80/0xff) x message length classes x contents x 3 schemes x 2 group assignments, plus seeded random (key,len<=1024) cases in the thorough tier. Per case: sign twice (determinism), sign with the same scalar under the OTHER group assignment in between and sign again (history independence), verify, reference CoreVerify on the same bytes, then sk through {be,le,Vec,serde_bare,serde_json} and through the curve-tagged SecretKeyEnum's {be,le,Vec,serde_bare,serde_json} must re-sign to the same bytes and sig' x pk' through {bytes,serde_bare,serde_json}^2 must verify. History clusters (4 quick / 24 thorough per group assignment): the 14 questions {sign, verify} x 3 schemes x 2 group assignments + proof of possession x 2 over one (key, message) are asked in every ordered pair (a,b) as the sequence a,b,b,a and every answer must equal the reference's (answers may depend on the arguments only, not on what was asked before). A case is distinct by (suite,scheme,sk,msg); non-trivial = signing succeeded and the pairing check was evaluated by both library and reference.";
+pub const RULE: &str = "grid: edge scalars E (1,2,3,r-1,r-2,2^254,2^255-19 mod r,(r-1)/2,hash-derived,random, plus 9 keys whose compressed public key ends with NUL/LF/CR/space/quote/backslash/DEL/0x80/0xff) x message length classes x contents (random; all-zero, all-0xff, counter at lengths 1,32,33,128,257 in the quick tier, everywhere in the thorough tier) x 3 schemes x 2 group assignments, plus seeded random (key,len<=1024) cases in the thorough tier. Per case: sign twice (determinism), sign with the same scalar under the OTHER group assignment in between and sign again (history independence), verify, reference CoreVerify on the same bytes, then sk through {be,le,Vec,serde_bare,serde_json} and through the curve-tagged SecretKeyEnum's {be,le,Vec,serde_bare,serde_json} must re-sign to the same bytes and sig' x pk' through {bytes,serde_bare,serde_json}^2 must verify. History clusters (4 quick / 24 thorough per group assignment): the 18 questions {sign, verify} x 3 schemes x 2 group assignments + proof of possession {prove, verify with own key, verify with another key} x 2 over one (key, message) are asked in every ordered pair (a,b) as the sequence a,b,b,a and every answer must equal the reference's (answers may depend on the arguments only, not on what was asked before). A case is distinct by (suite,scheme,sk,msg); non-trivial = signing succeeded and the pairing check was evaluated by both library and reference.";
 
 pub fn run(ctx: &mut Ctx) {
     for_both!(run_suite, ctx);
@@ -28,7 +28,9 @@ fn run_suite<C: Suite>(ctx: &mut Ctx) {
     for (_b, k) in crate::codec::keys_with_special_pk_tail::<C>() {
         edges.push(("pk-ends-with-special-byte", k));
     }
-    let contents: &[Content] = ctx.tier.pick(&[Content::Random][..], &CONTENTS[..]);
+    let contents: &[Content] = &CONTENTS[..];
+    // quick: structured contents (all-zero, all-0xff, counter) only at a few lengths
+    let quick_structured = [1usize, 32, 33, 128, 257];
     for scheme in SCHEMES {
         for len in lengths(ctx.tier) {
             ctx.require(&format!("{}/{}/len={}", C::NAME, scheme.name(), len));
@@ -36,6 +38,9 @@ fn run_suite<C: Suite>(ctx: &mut Ctx) {
         for (ename, sk) in &edges {
             for &len in lengths(ctx.tier) {
                 for &content in contents {
+                    if !matches!(content, Content::Random) && (len == 0 || (ctx.tier == Tier::Quick && !quick_structured.contains(&len))) {
+                        continue;
+                    }
                     g += 1;
                     if !ctx.mine(g) {
                         continue;
@@ -123,8 +128,20 @@ pub fn history_cluster<C: Suite>(ctx: &mut Ctx, prop: &str, sk_rs: &RS, msg: &[u
         qs.push(q(format!("pop/{}", C::NAME), Some(refimpl::pop_prove::<C::R>(sk_rs).enc()), move || skr.proof_of_possession().ok().map(|p| Vec::from(&p))));
         qs.push(q(format!("pop/{}", <C::Other as Suite>::NAME), Some(refimpl::pop_prove::<<C::Other as Suite>::R>(sk_rs).enc()), move || oskr.proof_of_possession().ok().map(|p| Vec::from(&p))));
     }
+    {
+        // the proof of possession against its own key (accepted) and against another key (rejected)
+        let ok_rs = if *sk_rs == -RS::ONE { RS::ONE } else { *sk_rs + RS::ONE };
+        let other = sk_from_rs::<C>(&ok_rs).public_key();
+        let oother = sk_from_rs::<C::Other>(&ok_rs).public_key();
+        let pop = ProofOfPossession::<C>(super::util::ls::<C>(refimpl::pop_prove::<C::R>(sk_rs)));
+        let opop = ProofOfPossession::<C::Other>(super::util::ls::<C::Other>(refimpl::pop_prove::<<C::Other as Suite>::R>(sk_rs)));
+        qs.push(q(format!("pop-verify/{}/own-key", C::NAME), Some(vec![1]), move || Some(vec![pop.verify(pk).is_ok() as u8])));
+        qs.push(q(format!("pop-verify/{}/other-key", C::NAME), Some(vec![0]), move || Some(vec![pop.verify(other).is_ok() as u8])));
+        qs.push(q(format!("pop-verify/{}/own-key", <C::Other as Suite>::NAME), Some(vec![1]), move || Some(vec![opop.verify(opk).is_ok() as u8])));
+        qs.push(q(format!("pop-verify/{}/other-key", <C::Other as Suite>::NAME), Some(vec![0]), move || Some(vec![opop.verify(oother).is_ok() as u8])));
+    }
     let skb = sk_rs.to_be_bytes();
-    let d = || json!({"sk_be":hex::encode(skb),"msg":hx(msg),"note":"sign/<suite>/<scheme> answers the signature bytes, verify/.. answers [1] for accepted, pop/<suite> the proof of possession"});
+    let d = || json!({"sk_be":hex::encode(skb),"msg":hx(msg),"note":"sign/<suite>/<scheme> answers the signature bytes, verify/.. and pop-verify/.. answer [1] for accepted, pop/<suite> the proof of possession"});
     let mut id = skb.to_vec();
     id.extend_from_slice(msg);
     sandwiches(ctx, prop, &format!("{}/history", C::NAME), "sign-verify-pop", &id, &d, &qs);
